@@ -19,7 +19,7 @@ echo "== tests with change"; PYTHONPATH=$S/src /venv/bin/python -m pytest -q -p 
 echo "== demo with change"; PYTHONPATH=$S/src /venv/bin/python demo_seeded.py >/dev/null 2>&1; echo "demo_with=$?"
 cd $V
 for P in "$@"; do
-  JASM_REPO="$S" ./check "$P" 2>&1 | grep -E "VIOLATION|UNDECIDED|INTERNAL|^OK" | head -4
+  JASM_REPO="$S" ./check "$P" 2>&1 | grep -E "VIOLATION|UNDECIDED|INTERNAL|^OK" | head -6
   echo "  -> check $P exit=${PIPESTATUS[0]}"
 done
 git -C /repo worktree remove --force "$S"
